@@ -1,8 +1,9 @@
 (* C15 -- read_runtime_data() keys equal sensors() for every model and capability set (ET capability model
    Model/ETCaps.v, compared with the real class on every run; finite spaces enumerated completely by vm_compute). *)
-From Coq Require Import List Bool Arith.
-From GW Require Import ETCaps ETCapsProofs ETProg ETGen ETRefine DTProg DTGen DTRefine.
+From Coq Require Import ZArith List Bool Arith String.
+From GW Require Import Prelude PyStr PyFloat Sensors ETCaps ETCapsProofs ETProg ETGen ETRefine DTProg DTGen DTRefine InvProg InverterGen InvProgInst InvProgRefine MapKeys.
 Import ListNotations.
+Close Scope Z_scope.
 
 (* from EVERY capability set (reachable or not) and for EVERY set of refused blocks / battery presence: whenever the call
    returns (whichever request of an earlier or of this call may have been lost: [lose]), the sensor groups of its result are exactly those sensors() lists right after the call *)
@@ -45,6 +46,13 @@ Theorem C15_dt_meter_stays_off : forall o_running o_meter,
   fst (fst (dt_read_runtime_data o_running o_meter false)) = false /\ ~ In true (snd (fst (dt_read_runtime_data o_running o_meter false))).
 Proof. exact dt_meter_stays_off. Qed.
 
+(* the step from a sensor list to the keys of the dictionary: Inverter._map_response, loop and except clause as generated from the current source,
+   returns one entry per sensor it was given, in order, WHATEVER the register contents (a date that cannot be decoded becomes None under its id) *)
+Theorem C15_map_response_keys_are_the_sensor_ids : forall d pos t r, map_response_gen d pos t = Ok r -> map fst r = map s_id t.
+Proof. exact map_response_gen_keys. Qed.
+Theorem C15_undecodable_value_keeps_its_key : forall d pos s, sensor_read d pos s = Exc EValue -> map_entry_gen d pos s = Ok VNone.
+Proof. exact map_entry_gen_value_error. Qed.
+
 Print Assumptions C15_keys_equal_sensors.
 Print Assumptions C15_succeeds_by_second_call.
 Print Assumptions C15_filter_level_invariant.
@@ -53,3 +61,5 @@ Print Assumptions C15_sensors_is_the_model.
 Print Assumptions C15_dt_read_runtime_data_is_the_model.
 Print Assumptions C15_dt_keys_equal_sensors.
 Print Assumptions C15_dt_meter_stays_off.
+Print Assumptions C15_map_response_keys_are_the_sensor_ids.
+Print Assumptions C15_undecodable_value_keeps_its_key.
